@@ -1077,8 +1077,25 @@ String String :: ArgAux(const char * buf) const
    {
       char token[64];
       muscleSprintf(token, "%%" INT32_FORMAT_SPEC, lowestArg);
-      String ret(*this);
-      (void) ret.Replace(token, buf);
+      const uint32 tokenLen = (uint32) strlen(token);
+
+      // Only replace tokens whose entire digit-run matches, so that (for example) replacing "%1" doesn't clobber the start of "%10"
+      String ret;
+      const char * p = Cstr();
+      while(true)
+      {
+         const char * t = strstr(p, token);
+         if (t == NULL) {ret += p; break;}
+
+         const char * afterToken = t+tokenLen;
+         if (muscleInRange(*afterToken, '0', '9')) ret += String(p, (uint32)(afterToken-p));  // it's a different (longer) token, so leave it as it is
+         else
+         {
+            ret += String(p, (uint32)(t-p));
+            ret += buf;
+         }
+         p = afterToken;
+      }
       return ret;
    }
    else return *this;
